@@ -53,6 +53,13 @@ def snapshot(res):
 
 def make_step(k):
     def step(h, model, op):
+        try:
+            return _step(h, model, op)
+        except Exception as e:      # the container itself failed: a verdict, not a harness error
+            return model, [('C14:container:raises-' + type(e).__name__,
+                            'capacity %d: %s during %r: %s' % (k, type(e).__name__, op, e))], 'EXC'
+
+    def _step(h, model, op):
         viol = []
         if op[0] == 'push':
             h.push(op[1], ITEMS[op[2]])
